@@ -502,10 +502,30 @@ def handleDensify (inp out : List String) : String :=
     reply same prop cls mg.str (String.intercalate " " out)
   | _, _ => "ERR parse-output"
 
+/-- `C15.densbig LN a b max m ty => n <coords> maxseg <longest> first <pt> last <pt>` — only a summary of a very long output -/
+def handleDensBig (inp out : List String) : String :=
+  let pin : P (Geom × Rat) := do let g ← geometry; lit "max"; let m ← rat; let _ ← tok; pure (g, m)
+  let pout : P (Nat × Rat × Pt × Pt) := do
+    lit "n"; let n ← nat; lit "maxseg"; let s ← rat; lit "first"; let f ← pt; lit "last"; let l ← pt; pure (n, s, f, l)
+  match P.run pin inp, P.run pout out with
+  | some (.line a b, mx), some (n, longest, f, l) =>
+    if mx ≤ 0 then skip "max-not-positive" else
+    if !exactSeg a b then skip "inexact-length" else
+    if (admissibleCounts (a, b) mx).length > 1 then skip "near-tie-piece-count" else
+    let pieces := numSegments lenD a b mx
+    let prop :=
+      if f != a || l != b then "FAIL:densify-end-points"
+      -- the pieces are differences of rounded points: tolerance 2 · 16·u·(max|coordinate| + length), as in `handleDensify`
+      else if longest > mx + 32 * uRound * (maxAbs [a, b] + lenD a b) then "FAIL:densify-piece-longer-than-max"
+      else "PASS"
+    reply (n == pieces + 1) prop ("type=LN pieces=huge") (toString (pieces + 1)) (toString n)
+  | _, _ => "ERR parse"
+
 def handle (op : String) (inp out : List String) : Option String :=
   match op with
   | "C15.interp" => some (handleInterp inp out)
   | "C15.densify" => some (handleDensify inp out)
+  | "C15.densbig" => some (handleDensBig inp out)
   | _ => none
 
 end Geo.Ops.C15
